@@ -6,7 +6,7 @@
 pub use crate::bit_io::{VerifBitReader as BitReader, VerifBitReaderReversed as BitReaderReversed};
 pub use crate::blocks::block::{BlockHeader as DecBlockHeader, BlockType};
 pub use crate::blocks::literals_section::{LiteralsSection, LiteralsSectionType};
-pub use crate::blocks::sequence_section::{CompressionModes, Sequence, SequencesHeader};
+pub use crate::blocks::sequence_section::{CompressionModes, ModeType, Sequence, SequencesHeader};
 pub use crate::decoding::block_decoder::{new as new_block_decoder, BlockDecoder};
 pub use crate::decoding::decode_buffer::DecodeBuffer;
 pub use crate::decoding::dictionary::Dictionary;
